@@ -409,14 +409,17 @@ class ArgumentParser(argparse.ArgumentParser):
         """Set the default argument values, either from a config file, or from the given kwargs."""
         if config_path:
             defaults = read_file(config_path)
-            if self.nested_mode == NestedMode.WITHOUT_ROOT and len(self._wrappers) == 1:
+            # (Only the top-level wrappers count: once the arguments were generated, `_wrappers` also
+            # holds the wrappers of the nested dataclass fields.)
+            root_wrappers = [w for w in self._wrappers if w.parent is None]
+            if self.nested_mode == NestedMode.WITHOUT_ROOT and len(root_wrappers) == 1:
                 # The file should have the same format as the command-line args, e.g. contain the
                 # fields of the 'root' dataclass directly (e.g. "foo: 123"), rather a dict with
                 # "config: foo: 123" where foo is a field of the root dataclass at dest 'config'.
                 # Therefore, we add the prefix back here.
-                defaults = {self._wrappers[0].dest: defaults}
+                defaults = {root_wrappers[0].dest: defaults}
                 # We also assume that the kwargs are passed as foo=123
-                kwargs = {self._wrappers[0].dest: kwargs}
+                kwargs = {root_wrappers[0].dest: kwargs}
             # Also include the values from **kwargs.
             kwargs = dict_union(defaults, kwargs)
 
